@@ -15,6 +15,10 @@
 (***************************************************************************)
 EXTENDS Aztec
 
+CONSTANT ExactFitOK   \* TRUE: as implemented (a stream that fills a size exactly is accepted by the automatic search, as it is on explicit request).
+                      \* FALSE: the negative design in which the automatic search skips exact fits - MC_AztecSel must then find a payload for
+                      \* which a smaller size is accepted on explicit request (non-vacuity of the minimality invariant).
+
 \* one stuffing step on position i (zero based) of a stream of n bits given by bit(_): <<emitted word, bits consumed>>
 StuffStep(bit(_), n, i, w) ==
   LET word == FoldLeft(LAMBDA a, j : 2 * a + (IF i + j - 1 >= n THEN 1 ELSE bit(i + j)), 0, [j \in 1..w |-> j])     \* bit(k): k one based
@@ -41,7 +45,10 @@ SelectFrom(nbits, stuffed(_), pct, req) ==
             tot == TotalBits(L, compact)
         IN stuffed(w) + ecc <= tot - (tot % w) /\ ~(compact /\ stuffed(w) > 64 * w)
       cand(i) == [compact |-> i <= 3, L |-> IF i <= 3 THEN i + 1 ELSE i]
-      fitsAuto(i) == LET c == cand(i) IN total <= TotalBits(c.L, c.compact) /\ fitsExplicit(c.L, c.compact)
+      fitsAuto(i) == LET c == cand(i)
+                         w == WordSize(c.L)
+                         tot == TotalBits(c.L, c.compact)
+                     IN total <= tot /\ fitsExplicit(c.L, c.compact) /\ (ExactFitOK \/ stuffed(w) + ecc < tot - (tot % w))
   IN IF req # 0
      THEN LET compact == req < 0
               L == Abs(req)
